@@ -187,3 +187,27 @@ func (s *Snap) part(mkt string, idx uint64) *obtypes.OrderBookParticipation {
 	}
 	return nil
 }
+
+type grantLine struct {
+	granter, grantee, kind int64
+	limit                  *big.Int
+}
+
+// grantLines: the house grants currently in the authz store, in account ids
+func (c *Chain) grantLines() []grantLine {
+	var l []grantLine
+	c.App.AuthzKeeper.IterateGrants(c.Ctx(), func(granter, grantee sdk.AccAddress, g authz.Grant) bool {
+		a, err := g.GetAuthorization()
+		if err != nil {
+			return false
+		}
+		switch x := a.(type) {
+		case *housetypes.DepositAuthorization:
+			l = append(l, grantLine{c.AccID(granter.String()), c.AccID(grantee.String()), 1, x.SpendLimit.BigInt()})
+		case *housetypes.WithdrawAuthorization:
+			l = append(l, grantLine{c.AccID(granter.String()), c.AccID(grantee.String()), 2, x.WithdrawLimit.BigInt()})
+		}
+		return false
+	})
+	return l
+}
